@@ -64,13 +64,6 @@ func sfColTok(col int) string {
 var sfOpText = map[string]string{"eq": "=", "ne": "!=", "lt": "<", "le": "<=", "gt": ">", "ge": ">="}
 var sfOps = []string{"eq", "ne", "lt", "le", "gt", "ge"}
 
-func b01(b bool) string {
-	if b {
-		return "1"
-	}
-	return "0"
-}
-
 func (n *sfNode) term() string {
 	switch n.kind {
 	case "T", "F":
